@@ -109,6 +109,12 @@ def check(w):
         for c in shorts:
             scen.append({"victim": victim, "field": "", "class": "", "kind": "argline", "args": ["-" + c]})
             scen.append({"victim": victim, "field": "", "class": "", "kind": "argline", "args": ["-" + c + c + c]})
+        # the valid request WITHOUT its "--server" line (the options then describe a client to the transfer code), with every option
+        for name in longs:
+            scen.append({"victim": victim, "field": "", "class": "", "kind": "argline", "args": ["--" + name], "noserver": True})
+        for c in shorts:
+            scen.append({"victim": victim, "field": "", "class": "", "kind": "argline", "args": ["-" + c], "noserver": True})
+            scen.append({"victim": victim, "field": "", "class": "", "kind": "argline", "args": ["-v", "--progress", "-" + c], "noserver": True})
     narg = len(scen) - nfield
     # multiplex frames around and beyond the size limit, completely delivered
     for size in (262143, 262144, 262145, 300000, 1048576, 16777215):
